@@ -213,9 +213,15 @@ def r2_workspace(chk, fx):
             if explicit or unwrap:
                 n += 1
                 what = "%s!()" % mac if explicit else T.short(c.name(), 2)
-                chk.instance("C15/R2", "%s in %s is reachable from the per-candidate evaluation" % (what, T.short(T.strip_generics(n2), 3)),
-                             n2, c.loc(), holds=cu, key="C15/R2 %s %s" % (T.strip_generics(n2), what),
-                             detail="valid RPSL reaching it panics; the panic aborts the whole run, not just this policy")
+                # catch_unwind in Candidate::evaluate contains a panic — unless it strikes while the connection is out of the evaluator
+                # (inside the closure given to with_connection): the unwind skips the hand-back, and every later policy of the run
+                # fails with AcquireConnection
+                inside = "::{closure#" in n2 and n2.startswith("<bgpfu::query::RpslEvaluator as rpsl::expr::eval::Resolver<")
+                chk.instance("C15/R2", "%s in %s is reachable from the per-candidate evaluation%s" % (what, T.short(T.strip_generics(n2), 3),
+                                                                                                      " (while the connection is taken out of the evaluator)" if inside else ""),
+                             n2, c.loc(), holds=cu and not inside, key="C15/R2 %s %s" % (T.strip_generics(n2), what),
+                             detail="valid RPSL reaching it panics; the panic aborts the whole run, not just this policy" if not cu else
+                             "caught by catch_unwind, but the connection is not handed back: the remaining policies cannot be evaluated")
     chk.instance("C15/R2", "no explicit panic / unwrap in RpslEvaluator's resolver and evaluator methods (%d bodies)" % len(bodies),
                  "bgpfu::query", None, holds=True)
 
@@ -302,7 +308,8 @@ def r2_agent_side(chk, fx):
                 if bl.get("cleanup"):
                     continue
                 t = bl["term"]
-                if t["k"] == "assert" and not (t.get("sp") or {}).get("m"):
+                # arithmetic-overflow checks exist in debug builds only (the shipped profile wraps): not a panic site of the agent
+                if t["k"] == "assert" and not (t.get("sp") or {}).get("m") and not str(t.get("msg", "")).startswith("Overflow"):
                     n_sites += 1
                     chk.instance("C15/R2", "compiler-inserted check (%s) in %s, outside catch_unwind" % (t.get("msg"), T.short(T.strip_generics(n), 3)), n, loc_of(t.get("sp")),
                                  holds=False, key="C15/R2 agent-side %s %s" % (T.strip_generics(n.split("::{closure")[0]), t.get("msg")),
@@ -358,8 +365,10 @@ def r2_dependency(ctx, chk, fx):
             continue
         seen[key] = 1
         loc = "%s:%s" % ((s.get("sp") or {}).get("f", "?").split("/registry/src/")[-1].split("/", 1)[-1], (s.get("sp") or {}).get("l"))
-        chk.instance("C15/R2", "dependency %s: %s in %s" % (s["krate"], msg[:90], T.short(fn, 3)), s["fn"], loc, holds=cu, key=key,
-                     detail="reached by syntactically valid RPSL; not enclosed by catch_unwind inside the per-candidate evaluation")
+        # irrc runs only while the connection is out of the evaluator (inside with_connection): a panic there is caught but loses the connection
+        chk.instance("C15/R2", "dependency %s: %s in %s" % (s["krate"], msg[:90], T.short(fn, 3)), s["fn"], loc, holds=cu and s["krate"] != "irrc", key=key,
+                     detail="reached by syntactically valid RPSL; not enclosed by catch_unwind inside the per-candidate evaluation" if not cu else
+                     "caught by catch_unwind, but it strikes inside with_connection: the connection is not handed back")
     for a in ep["analysed"]:
         if "rpsl::expr::eval::Evaluate" in a and not any(s["fn"] == a for s in ep["sites"]):
             chk.instance("C15/R2", "no explicit panic in %s" % T.short(T.strip_generics(a), 3), a, None, holds=True)
